@@ -63,8 +63,12 @@ def _run(self):
     if real:
         t_start = time.time()
         if self.mode & 2:
+            # the worker dies without reporting: killed outright, a silent exit(0), or exit(1) (by task number)
             import signal
-            os.kill(os.getpid(), signal.SIGKILL)
+            how = self.k % 3
+            if how == 0:
+                os.kill(os.getpid(), signal.SIGKILL)
+            os._exit(0 if how == 1 else 1)
         time.sleep(0.002 * ((self.k * 7) % 11))
         if self.mode & 128:
             # the worker process outlives run(): a non-daemon helper thread is still busy
